@@ -7,7 +7,8 @@ Local Open Scope N_scope.
 
 Section DeadSim.
 Variable x : str.
-Variables e1 e2 : cexpr.
+Variables e1 e2 : list frame.
+Hypothesis Hd : dead_pair x e1 e2.
 Notation vr := (vrel x e1 e2).
 Notation tr := (trel x e1 e2).
 Notation er := (erel x e1 e2).
@@ -284,7 +285,7 @@ Hint Resolve rel2_do_field : rel2.
 Lemma rel2_with_super {R} en en' vs k k' :
   er en en' vs true -> (forall ls ls' i, lsr ls ls' -> rel2 R (k ls i) (k' ls' i)) -> rel2 R (with_super en k) (with_super en' k').
 Proof.
-  intros He Hk. unfold with_super. destruct (erel_lookup_obj x e1 e2 _ _ _ _ He eq_refl) as (ls & ls' & i & c & E & E' & Hls).
+  intros He Hk. unfold with_super. destruct (erel_lookup_obj x e1 e2 Hd _ _ _ _ He eq_refl) as (ls & ls' & i & c & E & E' & Hls).
   rewrite E, E'. apply Hk. exact Hls.
 Qed.
 
